@@ -131,7 +131,7 @@ func checkC17() fw.Check {
 	return fw.Check{
 		Prop:  "C17",
 		Level: "exploration",
-		Rule: "three paths, each executed twice (skip-private-hops off/on) and compared hop by hop with a reference private-range predicate: (a) generated documents whose hop addresses sit on every private block boundary (first/last/first-1/last+1 of 10/8, 172.16/12, 192.168/16, fc00::/7, 4-byte and IPv4-mapped encodings, empty hops, private destination as last hop, names/RTT/flags attached) through Normalize+RemovePrivateHops; (b) RunTraceroute over the simulated wire whose routers have those addresses (v4 and v6) with a scripted reverse-DNS resolver answering for every address; (c) server.TracerouteHandler via httptest with skip-private-hops=true, decoding the emitted JSON independently. " +
+		Rule: "three paths, each executed twice (skip-private-hops off/on) and compared hop by hop with a reference private-range predicate: (a) generated documents whose hop addresses sit on every private block boundary (first/last/first-1/last+1 of 10/8, 172.16/12, 192.168/16, fc00::/7, 4-byte and IPv4-mapped encodings, empty hops, private destination as last hop, names/RTT/flags attached) through Normalize+RemovePrivateHops; (b) RunTraceroute over the simulated wire whose routers have those addresses (v4 and v6) with a scripted reverse-DNS resolver answering for every address; (c) server.TracerouteHandler via httptest with skip-private-hops=true, decoding the emitted JSON independently; (d) the CLI binary built from the working tree (no verif tag) tracing chains of Linux kernel routers in network namespaces whose links are numbered partly from private (10.13/16, fd13::/16) and partly from public (198.18/15, 2001:db8::/32) blocks, icmp/udp/tcp syn/sack, IPv4 and IPv6, once without and once with --skip-private-hops: entries at private positions must be bare TTL placeholders, entries at public positions must be the un-flagged twin's (3 of up to 5 runs for a complaint at a public position, since a reply may be lost; a private address in a flagged output is judged at once). " +
 			"distinct_nontrivial counts distinct (path, address, encoding) triples of private hops that went through redaction",
 		Workers:       1,
 		MinNontrivial: 30,
@@ -161,7 +161,13 @@ func checkC17() fw.Check {
 					}
 				}
 			}
-			return cases
+			// the real command line over kernel routers (c17_cli_test.go): the labs are started first and collected last
+			cli := c17cliCases(tier)
+			if *fw.FlagCase == "" && len(cli) > 0 {
+				starter := fw.Case{ID: "C17/cli-start", Run: func(c *fw.Ctx) { c17cliStart(tier) }}
+				cases = append([]fw.Case{starter}, cases...)
+			}
+			return append(cases, cli...)
 		},
 	}
 }
